@@ -237,6 +237,12 @@ def replay_file(path, quiet=False, record=False):
                 execute_guarded(check, _plan_for(check, (job[0], job[1]), pre['tier'], pre['base_seed']))
             except Exception:
                 pass
+        if doc.get('job'):
+            # generating the plan may itself have touched process state (calibration runs): do that again, too
+            try:
+                _plan_for(check, tuple(doc['job'][:2]), pre['tier'], pre['base_seed'])
+            except Exception:
+                pass
     res = execute_guarded(check, doc['plan'])
     keys = [v.key for v in res.violations]
     want = doc['violation']['key']
